@@ -34,9 +34,21 @@ TECHNIQUE = ("exhaustive enumeration of (hash seed in a stated range) x (every o
              "fresh interpreter processes; digests compared across all of them")
 
 
-def run_child(seed, nperm):
+# process environments: every fourth interpreter runs in the C locale without UTF-8 mode, every fourth (offset 2)
+# with assertions stripped (-O); the output must not depend on either
+def child_setup(seed):
     env = dict(os.environ, PYTHONHASHSEED=str(seed), PYTHONDONTWRITEBYTECODE="1", HV_REPO=REPO)
-    p = subprocess.run(["/venv/bin/python", "-m", "hv.c18_child", str(nperm), str(seed)], cwd=VERIF, env=env,
+    flags = []
+    if seed % 4 == 1:
+        env.update(LC_ALL="C", LANG="C", PYTHONUTF8="0", PYTHONCOERCECLOCALE="0", PYTHONIOENCODING="utf-8")
+    elif seed % 4 == 3:
+        flags = ["-O"]
+    return env, flags
+
+
+def run_child(seed, nperm):
+    env, flags = child_setup(seed)
+    p = subprocess.run(["/venv/bin/python", *flags, "-m", "hv.c18_child", str(nperm), str(seed)], cwd=VERIF, env=env,
                        capture_output=True, text=True, timeout=1800)
     if p.returncode != 0:
         return seed, None, p.stderr[-1500:]
